@@ -178,7 +178,7 @@ static rc::Gen<TecmpRecipe> genFrame(int tier)
                 r.entries = *rc::gen::weightedOneOf<uint16_t>({{1, rc::gen::just<uint16_t>(0)}, {5, range<uint16_t>(1, 9)}, {2, range<uint16_t>(0, 40)}});
                 // a third of them: one entry carries interface id 0 / three zero fields / all-ones fields
                 if (r.entries && *range<int>(0, 2) == 0)
-                    r.special = *range<uint8_t>(1, 3);
+                    r.special = *range<uint8_t>(1, 6);
                 if (*range<int>(0, 4) == 0)
                     r.trailer = *bytesOfLen(*range<size_t>(1, 11));  // trailing partial entry
                 break;
